@@ -12,6 +12,12 @@
   paths/names; sequences are arbitrary lists.  Nothing is assumed about `pickle` in the
   byte-level theorems; the object-level ones assume only `loads (dumps p v) = some v`.
 
+  `dump_pickle_to_hdf` is a public entry point of its own: its argument is a stream = bytes +
+  position, and the theorems `C20_stream_*` say that ALL bytes are stored whatever the
+  position (0, inside, at the end as `pickle.dump` leaves it, beyond the end).  Several files
+  open in one process do not influence each other (`C20_other_files_untouched`,
+  `C20_file_as_if_alone`, `C20_world_projection`): the code keeps no state between calls.
+
   Trusted, not proved: that h5py/HDF5 implement the calls as modelled (h5py is absent from
   this sandbox; the real epsie code runs against `harness/h5stub.py`, whose observable
   behaviour is compared with this model on every run).
@@ -286,6 +292,108 @@ theorem C20_checkpoint_other_name {α : Type} (P : Pickle α) {f f' : File} {pat
     (by intro hh; simp only [Key.mk.injEq] at hh; exact hname hh.2.symm)).1
   simp [stateFromCheckpoint, loadState, hfr]
 
+/-! ## `dump_pickle_to_hdf` as an entry point of its own: streams in any position
+
+  Everything above is stated for the bytes `b` the h5py part receives.  `dump_pickle_to_hdf`
+  is public and receives a *stream*; a caller's stream may be positioned anywhere. -/
+
+/-- **The position of the stream is irrelevant**: `dump_pickle_to_hdf` stores ALL the bytes
+    the stream holds — and raises, resp. leaves the file, exactly as for those bytes —
+    whether the stream is positioned at 0, at its end (just written, not rewound), in the
+    middle (partially read) or beyond its end. -/
+theorem C20_stream_position_irrelevant (f : File) (path : Option Loc) (name : String)
+    (data : Bytes) (pos : Nat) :
+    (dumpPickleStream f path name ⟨data, pos⟩).1 = dumpPickleToHdf f path name data := by
+  rw [dumpPickleStream_eq]
+
+/-- Two streams holding the same bytes — whatever their positions, however they were filled —
+    are dumped identically. -/
+theorem C20_stream_same_data {s t : Stream} (h : s.data = t.data) (f : File) (path : Option Loc)
+    (name : String) : (dumpPickleStream f path name s).1 = (dumpPickleStream f path name t).1 := by
+  rw [dumpPickleStream_eq, dumpPickleStream_eq, h]
+
+/-- **Round trip for streams.**  Whenever `dump_pickle_to_hdf` returns, loading the same place
+    returns every byte the stream held, from its first byte on, wherever it was positioned
+    and whatever the key held before. -/
+theorem C20_stream_roundtrip {f f' : File} {path path' : Option Loc} {name : String} {s : Stream}
+    (h : (dumpPickleStream f path name s).1 = (f', none)) (hp : resolve path' = resolve path) :
+    loadBytes f' path' name = .ok s.data := by
+  rw [dumpPickleStream_eq] at h
+  exact C20_roundtrip (dumpBytes_ok_iff.mpr h) hp
+
+/-- The caller's stream afterwards: the same bytes, positioned at its end. -/
+theorem C20_stream_left_at_end (f : File) (path : Option Loc) (name : String) (s : Stream) :
+    (dumpPickleStream f path name s).2 = ⟨s.data, s.data.length⟩ := by
+  rw [dumpPickleStream_eq]
+
+/-- Why the rewind matters: a bare `memfp.read()` returns everything only from position 0
+    (or when there is nothing to return).  From anywhere else it returns a proper suffix —
+    nothing at all for a stream that was just written to. -/
+theorem C20_bare_read_is_everything_iff (s : Stream) :
+    s.read.1 = s.data ↔ s.pos = 0 ∨ s.data = [] := by
+  rw [Stream.read_fst]
+  constructor
+  · intro h
+    have hl := congrArg List.length h
+    rw [List.length_drop] at hl
+    by_cases hp : s.pos = 0
+    · exact Or.inl hp
+    · right
+      have : s.data.length = 0 := by omega
+      exact List.eq_nil_of_length_eq_zero this
+  · rintro (h | h)
+    · rw [h, List.drop_zero]
+    · rw [h, List.drop_nil]
+
+/-- A stream that was just written to and not rewound — what `pickle.dump(state, memfp)`
+    leaves, and what `dump_state` passes on — is positioned at its end, a bare `read()`
+    would return nothing, and yet it is stored whole. -/
+theorem C20_stream_just_written (f : File) (path : Option Loc) (name : String) (b : Bytes) :
+    (Stream.empty.write b).pos = b.length ∧ (Stream.empty.write b).read.1 = [] ∧
+    (dumpPickleStream f path name (Stream.empty.write b)).1 = dumpPickleToHdf f path name b := by
+  rw [Stream.empty_write, dumpPickleStream_eq]
+  exact ⟨rfl, by simp [Stream.read], rfl⟩
+
+/-- `dump_state` as written — pickle into a fresh `BytesIO`, hand it over positioned at its
+    end — is the `dumpState` of the theorems above. -/
+theorem C20_dump_state_via_stream {α : Type} (P : Pickle α) (f : File) (path : Option Loc)
+    (name : String) (protocol : Option Nat) (v : α) :
+    dumpStateViaStream P f path name protocol v = dumpState P f path name protocol v := by
+  unfold dumpStateViaStream dumpState dumpBytes
+  simp only [Stream.empty_write, dumpPickleStream_eq]
+
+/-! ## several files in one process -/
+
+/-- A dump to one file leaves every other open file as it was. -/
+theorem C20_other_files_untouched (w : World) {i j : Nat} (h : j ≠ i) (path : Option Loc)
+    (name : String) (s : Stream) : (w.dump i path name s).1 j = w j := by
+  rw [World.dump_eq]; exact World.set_ne w h _
+
+/-- ... and what it does to the addressed file (and whether it raises) is what it would do
+    were that file the only one: nothing is remembered from calls on other files. -/
+theorem C20_file_as_if_alone (w : World) (i : Nat) (path : Option Loc) (name : String) (s : Stream) :
+    (w.dump i path name s).1 i = (dumpPickleToHdf (w i) path name s.data).1 ∧
+    (w.dump i path name s).2 = (dumpPickleToHdf (w i) path name s.data).2 := by
+  rw [World.dump_eq]; exact ⟨World.set_same _ _ _, rfl⟩
+
+/-- **Interleaving.**  After ANY interleaved sequence of dumps to several files, each file is
+    what the dumps addressed to it alone, in their order, make of it (so `C20_sequences`
+    applies to each file separately). -/
+theorem C20_world_projection (ops : List WorldOp) : ∀ (w : World) (i : Nat),
+    runWorld w ops i =
+      runDumpsCatching (w i) ((ops.filter (fun o => decide (o.file = i))).map (·.op)) := by
+  induction ops with
+  | nil => intro w i; rfl
+  | cons o r ih =>
+    intro w i
+    unfold runWorld
+    rw [ih, World.dump_eq]
+    by_cases h : o.file = i
+    · subst h
+      simp [runDumpsCatching, Stream.ofBytes]
+    · have h' : i ≠ o.file := fun hh => h hh.symm
+      simp [h, World.set_ne w h']
+
 /-! ## non-vacuity: concrete files, byte strings with zero bytes, all four overwrite cases -/
 
 section Examples
@@ -371,6 +479,57 @@ example : (checkpoint toyPickle f0 none defaultName [0, 9, 0]).toOption.map
 /-- the element-wise reading really differs -/
 example : joinItems (frombuffer [0, 1, 0]) = [1] ∧ tobytes (frombuffer [0, 1, 0]) = [0, 1, 0] := by
   decide
+
+/-- streams positioned at 0, in the middle, at the end and beyond it, the same bytes (with
+    zeros): a bare read differs, the dump does not -/
+def sbytes : Bytes := [128, 0, 5, 0, 46]
+
+example : ((⟨sbytes, 0⟩ : Stream).read.1, (⟨sbytes, 2⟩ : Stream).read.1, (⟨sbytes, 5⟩ : Stream).read.1,
+    (⟨sbytes, 9⟩ : Stream).read.1) = (sbytes, [5, 0, 46], [], []) := by decide
+
+example : ∀ pos ∈ [0, 2, 5, 9],
+    ((dumpPickleStream f0 pA "s" ⟨sbytes, pos⟩).1.1, (dumpPickleStream f0 pA "s" ⟨sbytes, pos⟩).1.2)
+      = ((dumpPickleToHdf f0 pA "s" sbytes).1, none) ∧
+    loadBytes (dumpPickleStream f0 pA "s" ⟨sbytes, pos⟩).1.1 pA "s" = .ok sbytes := by decide
+
+/-- a stream filled in two writes, then overwritten in the middle: position 3 of 5 -/
+example : ((((Stream.empty.write [1, 2]).write [3, 4, 5]).seek 1).write [0, 0]) = ⟨[1, 0, 0, 4, 5], 3⟩ := by
+  decide
+
+/-- writing after a seek beyond the end zero-fills the gap; writing nothing does not -/
+example : (((Stream.ofBytes [7]).seek 3).write [9]) = ⟨[7, 0, 0, 9], 4⟩ := by decide
+example : (((Stream.ofBytes [7]).seek 3).write []) = ⟨[7], 3⟩ := by decide
+
+/-- overwriting a longer / shorter / equally long checkpoint from a stream left at its end -/
+def twiceS (b1 b2 : Bytes) : Option (Except Err Bytes) :=
+  match dumpBytes f0 pA "s" b1 with
+  | .ok f1 => match (dumpPickleStream f1 pA "s" (Stream.empty.write b2)).1 with
+    | (f2, none) => some (loadBytes f2 pA "s")
+    | _ => none
+  | .error _ => none
+
+example : twiceS [1, 2, 0, 0, 3] [9, 0] = some (.ok [9, 0]) := by decide
+example : twiceS [7, 0] [1, 2, 0, 0, 3] = some (.ok [1, 2, 0, 0, 3]) := by decide
+example : twiceS [1, 2, 3] [0, 0, 0] = some (.ok [0, 0, 0]) := by decide
+example : twiceS [1, 2, 3] [] = some (.ok []) := by decide
+
+/-- the refusals are the same for a stream in any position -/
+example : (dumpPickleStream f0 (some ["zz"]) "s" ⟨[1, 2], 1⟩).1.2 = some .noGroup := by decide
+
+example : dumpStateViaStream toyPickle f0 none defaultName none [0, 9, 0]
+    = dumpState toyPickle f0 none defaultName none [0, 9, 0] := by decide
+
+/-- two files: interleaved dumps under the same (path, name) -/
+def w0 : World := fun _ => f0
+
+def wops : List WorldOp :=
+  [⟨0, ⟨none, "s", [1, 1, 1]⟩⟩, ⟨1, ⟨none, "s", [1, 1, 1]⟩⟩, ⟨0, ⟨pA, "s", [2, 0]⟩⟩, ⟨1, ⟨none, "s", [0]⟩⟩,
+   ⟨0, ⟨some ["zz"], "s", [5]⟩⟩, ⟨1, ⟨pA, "s", []⟩⟩]
+
+example : (loadBytes (runWorld w0 wops 0) none "s", loadBytes (runWorld w0 wops 0) pA "s",
+           loadBytes (runWorld w0 wops 1) none "s", loadBytes (runWorld w0 wops 1) pA "s",
+           loadBytes (runWorld w0 wops 2) none "s")
+    = (.ok [1, 1, 1], .ok [2, 0], .ok [0], .ok [], .error .noObject) := by decide
 
 end Examples
 
